@@ -197,9 +197,23 @@ def run(rep, info, model, tier, seed):
     fam.run_family(rep, model, "C15:timer-histories", scs, oracle, project=lambda t: t,
                    rule="all 192 combinations of poll in {1/8,1,5}s x ping_rate in {0,1/2,3,12}s x ping_timeout in {None,0,2,22}s x close_timeout in {None,0,1,12}s, each with %d arrival histories on the virtual clock (silence, pongs, data bursts, close replies; wake-ups exactly on and +-1 tick around multiples of ping_rate and deadline ticks); every trace item is time-stamped through the selector-wait markers and judged against the bounds of the statement" % per)
     rep.exhaustive["parameter grid (192 combinations)"] = True
+    # the same histories read as ARRIVAL times, under a selector that sleeps exactly as long as the loop asks it to (it is the
+    # loop, not the script, that decides when it wakes up without traffic): the wake-ups that result are judged by the same
+    # oracle and handed to the model as its script
+    per2 = 3 if tier == "quick" else 40
+    hs = []
+    for p, r, T, c in itertools.product([128, 1024, 5120], [0, 512, 3072, 12288], [None, 0, 2048, 22528], [None, 0, 1024, 12288]):
+        cfg = simnet.default_cfg(poll=p, ping_rate=r, ping_timeout=T, close_timeout=c)
+        for _ in range(per2):
+            sc = gen_history(rnd, cfg)
+            sc["honest"] = True
+            sc["horizon"] = sum(st[1] for st in sc["steps"]) + 6 * p + 2 * max(T or 0, c or 0)
+            hs.append(sc)
+    fam.run_family(rep, model, "C15:honest-selector", hs, oracle, project=lambda t: t,
+                   rule="the same parameter grid, %d histories each, with the steps read as arrival times and a simulated selector that honours the timeout it is given (returns True when the next arrival is there, False after exactly `timeout` seconds, never for a negative timeout or None): the wake-ups are the loop's own; they are time-stamped, judged against the bounds of the statement and replayed through the model" % per2)
     if not proof_ok and not rep.violations:
         rep.broken("proof obligation props/C15.v no longer checks: %s" % (rep.coq_failure,))
 
 
 def replay(body):
-    return fam.replay_generic(body, {"C15:timer-histories": oracle}, show=80)
+    return fam.replay_generic(body, {"C15:timer-histories": oracle, "C15:honest-selector": oracle}, show=80)
